@@ -15,6 +15,7 @@ import (
 	"strings"
 	"sync"
 	"testing"
+	"time"
 
 	"github.com/tailscale/setec/client/setec"
 	"github.com/tailscale/setec/types/api"
@@ -604,9 +605,28 @@ type lookupFailSvc struct {
 	failName string
 	how      string // plain, cancel, deadline
 	cancel   context.CancelFunc
+	slowName string        // this name is answered slowly (see Get)
+	failed   chan struct{} // closed when the failing lookup has been answered
+	once     sync.Once
 }
 
 func (s *lookupFailSvc) Get(ctx context.Context, name string) (*api.SecretValue, error) {
+	if s.slowName != "" && name == s.slowName {
+		// a slow answer that honours the request's context: it comes after the failing lookup has been
+		// answered if that one is under way at the same time (or after a pause if it is not)
+		select {
+		case <-s.failed:
+		case <-time.After(300 * time.Millisecond):
+		}
+		time.Sleep(30 * time.Millisecond)
+		if ctx.Err() != nil {
+			return nil, ctx.Err()
+		}
+		return s.svc.Get(ctx, name)
+	}
+	if name == s.failName && s.failed != nil {
+		defer s.once.Do(func() { close(s.failed) })
+	}
 	if name == s.failName {
 		s.mu.Lock()
 		s.reqs = append(s.reqs, name)
@@ -641,7 +661,7 @@ type threeFields struct {
 // because the caller's context ends during it - at each position of the struct.
 func failingLookups(rep *report.Report) {
 	sec := rep.Add(&report.Section{Name: "apply-with-a-failing-lookup", Engine: "enum", Exhaustive: true, Extra: map[string]int64{},
-		Rule: "a three-field struct applied to a lookup-enabled store that already holds two of the three secrets; the third has to be looked up and that lookup fails (plain error / the caller's context is cancelled during it), at each of the three positions: Apply must report the failing field and fill the two others; non-trivial = all"})
+		Rule: "a three-field struct applied to a lookup-enabled store that already holds two of the three secrets; the third has to be looked up and that lookup fails (plain error / the caller's context is cancelled during it), at each of the three positions: Apply must report the failing field and fill the two others; then with two fields to look up, one lookup failing and the other slow and honouring its context (every ordered pair of positions), the caller's context live; non-trivial = all"})
 	names := []string{"a", "b", "c"}
 	for pos := 0; pos < 3; pos++ {
 		for _, how := range []string{"plain", "cancel"} {
@@ -685,6 +705,51 @@ func failingLookups(rep *report.Report) {
 			}
 			st.Close()
 			cancel()
+		}
+	}
+	// two fields have to be looked up: one lookup fails, the other is slow and honours its context; the
+	// caller's context stays live throughout
+	for pos := 0; pos < 3; pos++ {
+		for slow := 0; slow < 3; slow++ {
+			if slow == pos {
+				continue
+			}
+			sec.Evaluations++
+			sec.Nontrivial++
+			sv := &lookupFailSvc{svc: svc{vals: map[string][]byte{}}, failName: "p/" + names[pos], how: "plain", slowName: "p/" + names[slow], failed: make(chan struct{})}
+			var known []string
+			for i, n := range names {
+				if i != pos {
+					sv.vals["p/"+n] = []byte("value-" + n)
+				}
+				if i != pos && i != slow {
+					known = append(known, "p/"+n)
+				}
+			}
+			desc := fmt.Sprintf("lookup of field %d (%s) fails while field %d (%s) needs a slow lookup", pos, names[pos], slow, names[slow])
+			st, err := setec.NewStore(context.Background(), setec.StoreConfig{Client: sv, Secrets: known, AllowLookup: true, PollInterval: -1, Logf: func(string, ...any) {}})
+			if err != nil {
+				rep.Violate(sec.Name, "fields/harness: "+desc, desc+": NewStore: "+err.Error(), nil)
+				continue
+			}
+			var v threeFields
+			fs, err := setec.ParseFields(&v, "p")
+			if err != nil {
+				rep.Violate(sec.Name, "fields/harness: "+desc, desc+": ParseFields: "+err.Error(), nil)
+				st.Close()
+				continue
+			}
+			err = fs.Apply(context.Background(), st)
+			got := []string{v.A, string(v.B), v.C}
+			if err == nil || !strings.Contains(err.Error(), "p/"+names[pos]) {
+				rep.Violate(sec.Name, "fields/failure-unreported: "+desc, fmt.Sprintf("%s: Apply reported %v", desc, err), map[string]any{"pos": pos, "slow": slow})
+			}
+			for i, n := range names {
+				if i != pos && got[i] != "value-"+n {
+					rep.Violate(sec.Name, "fields/others-not-filled: "+desc, fmt.Sprintf("%s: field %d (%s), whose secret the service serves and whose caller's context is live, is %q after Apply (error: %v)", desc, i, n, got[i], err), map[string]any{"pos": pos, "slow": slow})
+				}
+			}
+			st.Close()
 		}
 	}
 	sec.States, sec.Transitions = sec.Evaluations, sec.Evaluations
@@ -975,7 +1040,7 @@ type sixKinds struct {
 // newest or an older one. Every step that populates must leave every tagged field at the current value.
 func olderFields(rep *report.Report, depth int) {
 	sec := rep.Add(&report.Section{Name: fmt.Sprintf("histories-of-parse-apply-rotate-depth%d", depth), Engine: "seqx", Exhaustive: true, Extra: map[string]int64{},
-		Rule: "every sequence up to the depth bound over {ParseFields (at most two Fields values are kept), Apply through the first Fields, Apply through the second Fields, rotate every secret on the service and Refresh, NewStore with the struct in Structs} on one struct value with string, []byte, Secret, ,json int, Bin (value with pointer-receiver UnmarshalBinary), *Bin and an untagged field, starting with the pointer field {nil, preset}; after every Apply and every NewStore(Structs) each tagged field must hold the service's current value and the untagged field its sentinel; histories are never merged; non-trivial = histories whose last step populates after a rotation or a second parse",
+		Rule:  "every sequence up to the depth bound over {ParseFields (at most two Fields values are kept), Apply through the first Fields, Apply through the second Fields, rotate every secret on the service and Refresh, NewStore with the struct in Structs} on one struct value with string, []byte, Secret, ,json int, Bin (value with pointer-receiver UnmarshalBinary), *Bin and an untagged field, starting with the pointer field {nil, preset}; after every Apply and every NewStore(Structs) each tagged field must hold the service's current value and the untagged field its sentinel; histories are never merged; non-trivial = histories whose last step populates after a rotation or a second parse",
 		Bound: fmt.Sprintf("depth %d, 5 operations, 2 initial states", depth)})
 	alpha := []string{"parse", "apply1", "apply2", "rotate", "newstore"}
 	names := []string{"a", "b", "s", "n", "v", "w"}
